@@ -293,13 +293,23 @@ func ruleFragmentPop(c *Ctx, r *Report) {
 			r.Check(!stored, rule, short(pf)+":retransmit", c.ipos(cmp), "a fragment below the delivery cursor is flagged as retransmission and not stored", "a fragment of an already delivered message is stored again")
 		}
 	}
-	// single consumer
+	// single consumer: Pop is called only by the record-buffering function and its private helpers
+	var bhUnit map[*ssa.Function]bool
+	if bh := c.Fn("(*dtls.Conn).bufferHandshakeRecord"); bh != nil {
+		bhUnit = map[*ssa.Function]bool{}
+		for _, u := range c.unitFuncs(bh) {
+			bhUnit[u] = true
+		}
+	}
 	for _, s := range c.CallsTo(nameHasSuffix("FragmentBuffer).Pop")) {
-		r.Check(short(s.Fn) == "(*dtls.Conn).bufferHandshakeRecord", rule, "Pop<-"+short(s.Fn), c.ipos(s.Call), "single consumer", "Pop is called from a second place: messages can be consumed without entering the transcript cache")
+		r.Check(bhUnit[s.Fn], rule, "Pop<-"+short(s.Fn), c.ipos(s.Call), "single consumer", "Pop is called from a second place: messages can be consumed without entering the transcript cache")
 	}
 	if bh := c.need(r, rule, "(*dtls.Conn).bufferHandshakeRecord"); bh != nil {
-		pushes := findCalls(bh, nameHasSuffix("Cache).Push"))
-		pops := findCalls(bh, nameHasSuffix("FragmentBuffer).Pop"))
+		var pushes, pops []*ssa.Call
+		for _, u := range c.unitFuncs(bh) {
+			pushes = append(pushes, findCalls(u, nameHasSuffix("Cache).Push"))...)
+			pops = append(pops, findCalls(u, nameHasSuffix("FragmentBuffer).Pop"))...)
+		}
 		r.Check(len(pushes) == 1 && len(pops) >= 1, rule, short(bh)+":cache-push", c.pos(bh.Pos()), "each popped message is pushed to the transcript cache at one site", fmt.Sprintf("%d cache pushes / %d pops in bufferHandshakeRecord", len(pushes), len(pops)))
 		if len(pushes) == 1 {
 			ok := allLeaves(c.Origins(pushes[0].Call.Args[1], 0), func(l ssa.Value) bool { return isCallResult(l, nameHasSuffix("FragmentBuffer).Pop")) })
@@ -362,18 +372,19 @@ func rulePopAfterPush(c *Ctx, r *Report) {
 		return
 	}
 	r.Sites += len(fn.Blocks)
-	pushes := findCalls(fn, nameHasSuffix("FragmentBuffer).Push"))
+	follow := followSamePkg(fn)
+	pushes := callsReached(fn, follow, func(cl *ssa.Call) bool { return strings.HasSuffix(calleeName(&cl.Call), "FragmentBuffer).Push") })
 	pops := map[ssa.Instruction]bool{}
-	for _, p := range findCalls(fn, nameHasSuffix("FragmentBuffer).Pop")) {
+	for _, p := range callsReached(fn, follow, func(cl *ssa.Call) bool { return strings.HasSuffix(calleeName(&cl.Call), "FragmentBuffer).Pop") }) {
 		pops[p] = true
 	}
-	if len(pushes) != 1 || len(pops) == 0 {
-		r.Unk(rule, short(fn), c.pos(fn.Pos()), "expected one Push and at least one Pop call")
+	if len(pushes) != 1 || len(pops) == 0 || pushes[0].Parent() != fn {
+		r.Unk(rule, short(fn), c.pos(fn.Pos()), "expected one Push (in the function itself) and at least one Pop call")
 		return
 	}
 	errV := errResult(pushes[0])
 	isHS := resultValue(pushes[0], 0) // "the record was a handshake record and was buffered"
-	w := &Walk{Fn: fn, Assume: func(v ssa.Value) (Val, bool) {
+	w := &Walk{Fn: fn, Follow: follow, Assume: func(v ssa.Value) (Val, bool) {
 		if v == errV {
 			return vNil(true), true
 		}
